@@ -77,7 +77,8 @@ class P(Prop):
     def coq_term(self, case, h):
         if case["op"] != "evaluator":
             return None
-        return "run_evaluator [] [] %s %s %s" % (C.kname("Segment<%s>::evaluate" % case["ty"]),
+        return "run_evaluator %s %s %s %s %s" % (C.ztable(h.get("ln", [])), C.ztable(h.get("exp", [])),
+                                                 C.kname("Segment<%s>::evaluate" % case["ty"]),
                                                  C.zlistlist(case["segs"]), C.zlist(case["xs"]))
 
     def oracle(self, case, h):
